@@ -52,43 +52,52 @@ gen_claim("C01", "Theorems C01_int / C01_float32 / C01_float64 / C01_nan_fails_a
           "top-level/nested/named x gt/gte/lt/lte x several bounds) the kernel certifies that the file emitted by the rebuilt govalid equals "
           "gen_file of the model, and the compiled validators agree with the GoLite semantics and with expected(d, v) on boundary lattices "
           "(all 256 values of 8-bit types).", "DESIGN.md §5 C01")
-gen_claim("C02", "Per-run certificates (emitted file = gen_file d) and differential of compiled code vs GoLite semantics vs the specification "
+gen_claim("C02", "Theorems C02_exact / C02_no_condition_no_verdict: the condition emitted for required, on any value of the field's type, is true exactly when the value is the type's zero value. Per-run certificates (emitted file = gen_file d) and differential of compiled code vs GoLite semantics vs the specification "
           "is_zero_value for every documented type of `required` (all integer kinds, floats incl. -0.0/NaN, complex, bool, string, pointer, "
           "interface, any, error, func, slice/map/chan nil vs empty, arrays of length 0/1/3, named and alias types over each), top-level and nested.",
           "DESIGN.md §5 C02")
-gen_claim("C03", "Per-run certificates and differential for minlength/maxlength/length over strings built from 1-4 byte runes, lone continuation "
+gen_claim("C03", "Theorems rule_condition_exact / C03_meaning: the emitted condition decides the comparison of the code-point count (rune_count). Per-run certificates and differential for minlength/maxlength/length over strings built from 1-4 byte runes, lone continuation "
           "bytes, 0xFF and truncated lead bytes; the rune decoder model (Base/Utf8.v) is compared with Go's utf8 package on ~4e5 strings by C06/C11 runs.",
           "DESIGN.md §5 C03")
-gen_claim("C04", "Per-run certificates and differential for minitems/maxitems on slices, maps, channels (buffered count), arrays (declared size) and "
+gen_claim("C04", "Theorems rule_condition_exact / C04_meaning: the emitted condition decides the comparison of len(). Per-run certificates and differential for minitems/maxitems on slices, maps, channels (buffered count), arrays (declared size) and "
           "named types over them, nil vs empty, lengths 0..7, top-level and nested.", "DESIGN.md §5 C04")
-gen_claim("C05", "Per-run certificates and differential for enum on string / integer / float / named fields: padded items, duplicates, items with "
+gen_claim("C05", "Theorems rule_condition_exact / C05_string (+ the numeric case inside cond_sound): the emitted conjunction accepts exactly the trimmed items. Per-run certificates and differential for enum on string / integer / float / named fields: padded items, duplicates, items with "
           "quotes and backslashes, non-ASCII items, hexadecimal/octal/underscored numeric items; values from the list, case changes, prefixes, +-1, zero.",
           "DESIGN.md §5 C05")
 gen_claim("C06", "Theorems IsValidAlpha_exact / IsNumeric_exact (Helpers/AlnumProofs.v) and C11-C13 for the recognizers; per-run certificates and "
           "differential for the seven format markers at top level, combined with required/length markers, and nested two levels deep; ipv4/ipv6 "
           "are defined by net.ParseIP (oracle, evaluated by the standard library on the corpus strings).", "DESIGN.md §5 C06")
-gen_claim("C07", "Per-run certificates and differential on random structs (1-12 fields, 0-4 markers, nesting <= 2): the compiled validator's report "
+gen_claim("C07", "Theorem C07_report_exact (gen_exact): for every declaration in the decidable guard (outside the known-finding classes D7-D10) and every well-typed receiver, the generated code returns nil iff no rule is violated and otherwise exactly one entry per violated rule with the right Path, Type and Value, in order; C07_nil_receiver; C07_sentinels; refuted witnesses for D7 and D10 by computation. validator_sound turns each per-run certificate into that theorem about the file govalid actually emitted. Per-run certificates and differential on random structs (1-12 fields, 0-4 markers, nesting <= 2): the compiled validator's report "
           "equals expected(d, v) as a multiset of (Path, Type, Value-matches-field), nil receiver yields ErrNil<T>, and errors.Is over every exported "
           "sentinel (directly and through %w) agrees with the report. Known findings D7-D10 are recognized by the Coq class predicates of Gen/Guard.v.",
           "DESIGN.md §5 C07")
 gen_claim("C08", "Per-run certificates plus the Go compiler as decision procedure: every corpus package (several structs and files per package, up to "
           "40 fields, nesting <= 3, parameters needing escaping) must build together with compile-time assertions that *T implements govalid.Validator "
           "and govalid.ContextValidator, pass go vet and be gofmt-clean. Partial w.r.t. the full Go type checker (not modelled).", "DESIGN.md §5 C08")
-gen_claim("C09", "Per-run certificates and differential over declaration shapes: struct-level vs per-field placement of the same markers (compared "
+gen_claim("C09", "Theorems C09_no_gap (a violated written rule is never answered with nil), C09_inapplicable_harmless, on top of gen_exact. Per-run certificates and differential over declaration shapes: struct-level vs per-field placement of the same markers (compared "
           "entry by entry), multi-name fields, type ( ... ) groups mixing struct and non-struct specs, embedded fields, deep nesting, 100 fields; "
           "every written rule violated by some case must be reported.", "DESIGN.md §5 C09")
-gen_claim("C15", "Per-run certificates; the compiled ValidateContext is run with a context that turns done at its k-th Err() call for every k up to "
+gen_claim("C15", "Theorem C15_contract, for EVERY GoLite program (hence every translated file, without the generator model): the run returns exactly what ctx.Err() returned at the poll that observed done, or is identical to the run with context.Background() and then every Err() call returned nil; C15_poll_precedes_every_group. Per-run certificates; the compiled ValidateContext is run with a context that turns done at its k-th Err() call for every k up to "
           "past the undisturbed count (Canceled and DeadlineExceeded): result must be exactly ctx.Err() when observed, identical to Validate() otherwise; "
           "the number of Err() calls must equal the GoLite semantics' prediction; all four entry points must agree.", "DESIGN.md §5 C15")
-gen_claim("C16", "Per-run certificates (the emitted code contains no write to the receiver or to a package-level sentinel: ASetGlobalValue is representable "
+gen_claim("C16", "Theorems C16_no_shared_writes (any program without ASetGlobalValue leaves package-level state untouched; the side condition is evaluated on every translated file) and C16_generated_code_is_read_only. Per-run certificates (the emitted code contains no write to the receiver or to a package-level sentinel: ASetGlobalValue is representable "
           "and absent); deep fingerprints of receiver and sentinels before/after every case; race-detector builds of the driver (goroutines validating shared "
           "and own values) and of the runtime helpers. Partial: the Go memory model and the race detector's coverage are outside the model.", "DESIGN.md §5 C16")
-gen_claim("C17", "Theorems C11_total / C12_total / C13_total (recognizers never panic, all byte strings); per-run certificates; adversarial lattice "
+gen_claim("C17", "Theorem C17_no_panic: any program with the nil guard never panics, for every receiver, field value and context (conditions evaluate to a boolean or are ill-typed; the side condition is evaluated on every translated file). Theorems C11_total / C12_total / C13_total (recognizers never panic, all byte strings); per-run certificates; adversarial lattice "
           "(NaN, infinities, extreme integers, nil/empty/huge collections, nil pointers and interfaces, nil receiver) plus 1 MiB strings and >4e6 malformed "
           "recognizer inputs run through the rebuilt code under recover().", "DESIGN.md §5 C17")
-gen_claim("C19", "Per-run certificates; the GoLite semantics counts executed allocation sites (Append, boxing) and predicts 0 on every valid value; "
+gen_claim("C19", "Theorem C19_valid_path_alloc_free (from gen_exact: executed allocation sites = 2 x violated rules, so 0 on a valid value). Per-run certificates; the GoLite semantics counts executed allocation sites (Append, boxing) and predicts 0 on every valid value; "
           "testing.AllocsPerRun for Validate(), Validate<T>(t), Validate<T>Context(Background, t) must be 0 for every valid value of the C01-C07 corpora and "
           "for long strings / large collections. Partial: escape analysis and stdlib internals are measured, not modelled.", "DESIGN.md §5 C19")
+CLAIMS["C10"] = dict(
+    category="exploration",
+    text="Behavioural: every expression of a typed CEL grammar (330 quick / 2500 thorough; each its own package) that the generator accepts and whose "
+         "output compiles is run, compiled, against cel-go's evaluation of the same expression (value bound to the field, this to the struct) on value "
+         "grids; every binding on which cel-go yields a boolean must agree, except inside the open known-finding classes (D14 size counts bytes, D15 "
+         "narrow-integer wrap, D16 division by zero, D23 map comprehension). Expressions the translator cannot render must fail at generation or "
+         "compile time (counted). The Coq stage of DESIGN.md section 5 C10 (reference semantics + ideal translation + certificates) is not built yet.",
+    ref="DESIGN.md §5 C10", note="Trusted: cel-go v0.26.1 as reference, the Go compiler as judge of loud failure, lib/celgen.py grammar and grids.",
+    technique="differential execution against the reference CEL implementation (Coq model of CEL pending)")
 CLAIMS["C14"] = dict(
     text="Theorems C14_isolated / C14_order_insensitive / C14_pure on the GeneratorMemory state machine (Gen/Memory.v): whatever memory earlier structs, "
          "packages or runs left and in whatever order packages obtain the mutex, a struct's declarations are those of generating it alone. Tie: the rebuilt "
